@@ -17,13 +17,17 @@ import (
 
 // checkIntegrity stands in for SQLite's PRAGMA quick_check/integrity_check on the
 // restored file: its verdict is an input.
-var vxIntegrityCalls int
+var (
+	vxIntegrityCalls int
+	vxIntegrityPaths []string // every path the check (and its -wal/-shm cleanup) was run on
+)
 
 func checkIntegrity(ctx context.Context, dbPath string, mode IntegrityCheckMode) error {
 	if mode == IntegrityCheckNone {
 		return nil
 	}
 	vxIntegrityCalls++
+	vxIntegrityPaths = append(vxIntegrityPaths, dbPath)
 	if vx.Fault("integrityFails") {
 		return errors.New("integrity check failed: vx")
 	}
@@ -101,19 +105,22 @@ func VxC10Restore() {
 	c := &vxDamageClient{}
 	expect := vxRestoreReplica(c)
 	// at most one kind of damage
+	// (every file of this replica is part of the plan for the latest state; the
+	// victim is the snapshot or the newest file)
+	victim := c.files[vx.Choose("victim", 0, len(c.files)-1)]
 	switch vx.Choose("damage", 0, 4) {
 	case 1:
-		c.missing = vxKey(c.files[len(c.files)-1].Level, c.files[len(c.files)-1].MinTXID, c.files[len(c.files)-1].MaxTXID)
+		c.missing = vxKey(victim.Level, victim.MinTXID, victim.MaxTXID)
 	case 2:
-		f := c.files[0]
-		c.truncKey = vxKey(f.Level, f.MinTXID, f.MaxTXID)
-		c.truncAt = vx.Choose("truncAt", 0, 3) * int(f.Size) / 4
+		c.truncKey = vxKey(victim.Level, victim.MinTXID, victim.MaxTXID)
+		c.truncAt = vx.Choose("truncAt", 0, 3) * int(victim.Size) / 4
 	case 3:
-		c.files[0].Size = int64(vx.Choose("tinySize", 0, ltx.HeaderSize-1))
+		// the listing reports a size below the LTX header size (an interrupted upload)
+		victim.Size = int64(vx.Choose("tinySize", 0, 2) * (ltx.HeaderSize - 1) / 2)
 	case 4:
 		c.failOpen = true
 	}
-	damaged := c.missing != [3]uint64{} || c.truncKey != [3]uint64{} || c.failOpen || c.files[0].Size < ltx.HeaderSize
+	damaged := c.missing != [3]uint64{} || c.truncKey != [3]uint64{} || c.failOpen || victim.Size < ltx.HeaderSize
 	dir := vx.TempDir()
 	out := dir + "/restore/db"
 	preexisting := vx.Fault("outputExists")
